@@ -130,6 +130,40 @@ PROPS['C24'] = {
     'claim_draft': "Lean theorems about the model of eventsStore (MinterModel/Events.lean: disk tables + in-memory id caches, uint16/uint32 id arithmetic modelled literally), for every sequence of commit/load/restart operations from an empty DB in which at most 65 534 distinct validator public keys and 2^32-1 distinct addresses occur and every event is well formed (known role, amount >= 0, coin/order ids < 2^32): committing a batch and loading its height returns exactly the batch, every field of every event (C24_load_commit_partial); later commits at other heights, loads and restarts never change what a height loads (C24_load_stable, C24_load_stable_run, C24_restart_transparent); the id<->key and id<->address tables stay injective in the cache and on disk (C24_tables_injective); such a run never panics and afterwards every height loads the batch last committed there (C24_run_total, C24_run_faithful). The bound is sharp, proved on concrete witnesses: with 65 535 distinct keys a restart loses the key table (C24_restart_breaks_at_65535), and the 65 536th key gets id 0 so an unbond event without key loads back with a key (C24_nokey_breaks_at_65536) - the property text ('however many ... have appeared') is false beyond the bound. Tie: mode events drives the real events.NewEventsStore on MemDB and on goleveldb (really closed and reopened) with generated commit/load/restart sequences incl. a malformed stream; (1) direct monitor: every loaded batch equals the committed one token by token, (2) the Lean model must predict every load, panics included (Q evstore / evstoreh). Thorough additionally replays the four id-width sequences on the real store and reports the defect (known finding id-width-6553[56]-...). Partial: JSON encoding of a compacted batch and the DB are trusted (exercised only).",
 }
 
+# persist builder: C09 (app-DB layer proved; keeps its campaigns and the 'restart' twins mode), C10, C29
+PROPS['C09'].update({
+    'registered': False,
+    'modules': ['MinterProofs.Props.C09'],
+    'theorems': ['Minter.Persist.commit_flushes', 'Minter.Persist.restart_bisim', 'Minter.Persist.restart_bisim_initial'],
+    'assumptions': ['state-module caches (order-book lists, candidates/stakes, dirty flags in state/*), IAVL node storage, goleveldb and the events DB contents are bound by the harness only (restart twins, crash mode: full exports, responses, hashes, LoadEvents compared)',
+                    'OpsOK: no block sets the emission to 0 (SaveEmission writes emission.Bytes(), empty for 0, read back as nil: emission_zero_lost)'],
+    'claim_draft': "Lean theorems about the app-DB layer (MinterModel/Persist.lean: the eight persisted records, the Go struct's caches and dirty flags with exactly what each getter caches, the write sequence of Blockchain.Commit with its real guards, NewMinterBlockchain/initState lazy loads): after any block a restart from disk succeeds and every getter (Info height and hash, start height, validators, block-time delta, versions, emission, price) of the new process equals the running one, nothing is pending (commit_flushes); for every history with restarts inserted after any blocks, several in a row included, the list of all getter answers after every block equals that of the never-restarted node and both halt together (restart_bisim; restart_bisim_initial with a restart before the first block). Tie: Q commitorder (crash mode) compares the logged write sequence of every real Commit with the model's; restart twins (mode restart) and the mixed/staking/orders campaigns compare full exports, responses and app hashes of restarted and unrestarted real nodes. Partial: the state-module caches (order books, candidates, stakes), IAVL and goleveldb are outside the Lean model and covered by the twins only. Known finding (genesis boundary): InitChain calls updateValidators after the genesis commit, so a node restarted between InitChain and the first block executes that block on different state (other app hash) - reported by the crash mode as 'genesis-boundary: ...'.",
+})
+PROPS['C09']['modes'] = PROPS['C09'].get('modes', []) + [
+    # first block after InitChain (history 0 of the crash mode): restart between InitChain and the first block
+    {'mode': 'crash', 'args': ['-profile', 'mixed', '-seed', '{seed}', '-n', '1', '-tier', '{tier}', '-driver', '{driver}', '-keep', '{keep}']}]
+PROPS['C10'] = {
+    'level': 'proof', 'registered': False,
+    'modules': ['MinterProofs.Props.C10'],
+    'theorems': ['Minter.Persist.crash_recoverable_partial', 'Minter.Persist.crash_then_continue', 'Minter.Persist.crash_after_height',
+                 'Minter.Persist.recovered_iff_nothing_lost', 'Minter.Persist.crash_recoverable_atomic', 'Minter.Persist.crash_not_recoverable'],
+    'modes': [{'mode': 'crash', 'args': ['-profile', 'mixed', '-seed', '{seed}', '-n', '6', '-tier', '{tier}', '-driver', '{driver}', '-keep', '{keep}']},
+              {'mode': 'crash', 'args': ['-profile', 'governance', '-seed', '{seed}', '-n', '3', '-tier', '{tier}', '-driver', '{driver}', '-keep', '{keep}']}],
+    'assumptions': ['"replaying block h yields the same root hash" is an input of the model (Block.hash); torn writes inside one tm-db batch, fsync ordering between the three DBs on power loss, Tendermint\'s WAL and light-client checks are outside',
+                    'IAVL SaveVersion of an existing version with the same hash is accepted without a DB write (read in iavl v0.17.3 mutable_tree.go)',
+                    'crash during InitChain itself is not modelled (outside the wording "committing block h")'],
+    'claim_draft': "Lean theorems about the commit/crash/recover model (MinterModel/Persist.lean), for every coherent node flushed at h-1 (Boundary), every block and every prefix length k of the write sequence of Commit(h) (events, tree SaveVersion, prune, app-DB records): with the atomic app-DB batch that /repo has since fix-C10 every k recovers - restart succeeds, Info reports a height the handshake can replay from, re-delivering the block is accepted by the tree and the node has the same logical content and tree as the uncrashed one (crash_recoverable_atomic), and all later observations coincide (crash_then_continue); for the original seven separate writes the recoverable prefixes are exactly those up to 'hash' plus the complete commit (crash_recoverable_partial, crash_after_height, recovered_iff_nothing_lost) and a concrete witness refutes the property for that order (crash_not_recoverable) - the defect fix-C10 repaired. Tie: crash mode wraps all three DBs of the real node, logs every atomic write, materialises a fresh goleveldb from every prefix of sampled commits (first block, version-update, price-change, validator-update blocks, random), restarts the real node, applies the handshake rule, re-delivers and compares app hash, Info, full export, app-DB getters, LoadEvents and the next 3 blocks with the never-crashed node; Q commitorder / Q crashinfo: the model (told whether the code batched) must predict the logged write sequence and the Info of every crashed node. Partial: state-module internals, IAVL, goleveldb and fsync ordering are exercised, not modelled. Known finding (genesis boundary, not repaired by fix-C10): crash points of the first Commit after InitChain before 'height' is written do not recover, because InitChain changes state in memory after the genesis commit.",
+}
+PROPS['C29'] = {
+    'level': 'proof', 'registered': False,
+    'modules': ['MinterProofs.Props.C29'],
+    'theorems': ['Minter.Persist.snapshot_fun_of_disk', 'Minter.Persist.snapshot_same_on_every_node', 'Minter.Persist.restore_info', 'Minter.Persist.restore_bisim'],
+    'modes': [{'mode': 'snapshot', 'args': ['-profile', 'mixed', '-seed', '{seed}', '-n', '4', '-tier', '{tier}', '-keep', '{keep}']},
+              {'mode': 'snapshot', 'args': ['-profile', 'staking', '-seed', '{seed}', '-n', '3', '-tier', '{tier}', '-keep', '{keep}']}],
+    'assumptions': ['cosmos-sdk snapshot chunking / zlib / protobuf, IAVL export/import and Tendermint\'s light-client check of the offered app hash are outside the model (the first three are exercised by the snapshot mode)'],
+    'claim_draft': "Lean theorems about the app-DB/tree model (MinterModel/Persist.lean): the snapshot at height h is a function of the flushed disk content (snapshot_fun_of_disk), so every node that committed the same blocks - under any restart pattern - produces the same snapshot or both halt (snapshot_same_on_every_node); a node restored from it starts, reports the producer's height and app hash and has the same logical content, the tree agreeing from h upwards (restore_info); all later observations of the restored node equal those of the node that executed every block although its tree holds only version h (restore_bisim, TreeAgree: pruning decisions may differ below h). Tie: mode snapshot drives the real ListSnapshots/LoadSnapshotChunk/OfferSnapshot/ApplySnapshotChunk between real nodes of generated histories (mixed, staking), compares the chunks of two producers, Info after restore, then responses, app hashes, full exports and app-DB getters of restored vs replaying node for the following blocks. Partial: no Q-level tie for this property (monitor on the real node only); chunk encoding, IAVL import and the light-client check are trusted/exercised.",
+}
+
 
 # ---------------------------------------------------------------------------------------------------------------
 # What is claimed (MANIFEST.json is generated from this by tools/gen_manifest.py)
